@@ -134,7 +134,7 @@ V("C04-b-symp-half", "C04", "C04.2", (ITY, "            self.final_rhs = rhs(ini
 V("C04-c-dtime-half", "C04", "C04.3", (ITY, "        self.dTime = D.ar_numpy.copy(timestep)\n        if self.is_fsal and self.is_explicit:", "        self.dTime = D.ar_numpy.copy(0.5 * timestep)\n        if self.is_fsal and self.is_explicit:"))
 V("C04-d-signed-min", "C04", "C04.1", (ITY, "D.ar_numpy.sign(current_timestep) * D.ar_numpy.minimum(D.ar_numpy.abs(timestep), D.ar_numpy.abs(current_timestep)))", "D.ar_numpy.minimum(timestep, current_timestep))", ), count=2)
 V("C04-e-log-signed", "C04", "C04.1", (IUT, "D.ar_numpy.log(D.ar_numpy.abs(integrator.solver_dict['tau0']))", "D.ar_numpy.log(integrator.solver_dict['tau0'])"))
-V("C04-f-explicit-controller", "C04", "C04.2", (ITY, "        if self.is_adaptive or self.is_implicit:\n            self.solver_dict['redo_count'] = 0", "        if True:\n            self.solver_dict['redo_count'] = 0"))
+V("C04-s-explicit-controller-harmless", "C04", "silent", (ITY, "        if self.is_adaptive or self.is_implicit:\n            self.solver_dict['redo_count'] = 0", "        if True:\n            self.solver_dict['redo_count'] = 0"))
 V("C04-g-step-modifies", "C04", "C04.2", (ITY, "        self.dTime = D.ar_numpy.copy(timestep)\n        if self.is_fsal and self.is_explicit:", "        timestep = timestep * 1.0000001\n        self.dTime = D.ar_numpy.copy(timestep)\n        if self.is_fsal and self.is_explicit:"))
 V("C04-h-rich-signed", "C04", "C04.1", (ITY, "if D.ar_numpy.abs(dt_z) < D.ar_numpy.abs(timestep):", "if dt_z < timestep:"))
 V("C04-i-clip-dt", "C04", "C04.4", (DS, "                steps += 1\n", "                steps += 1\n                self.dt = 0.5 * self.dt\n"))
@@ -318,3 +318,17 @@ V("C19-g-slice-undirected", "C19", "C19.2", (DS, "start_idx = deutil.search_bise
 V("C19-h-nearest-raw", "C19", ["C19.3", "C19.2"], (DS, "nearest_idx = int(D.ar_numpy.argmin(D.ar_numpy.abs(self.t - index)))", "nearest_idx = int(D.ar_numpy.argmin(D.ar_numpy.abs(self.__t - index)))"))
 V("C19-i-view-short", "C19", "C19.6", (DS, "        return self.__t[:self.counter + 1]", "        return self.__t[:self.counter]"))
 V("C19-s-guard-len", "C19", "silent", (DS, "            if index > self.counter:\n                raise IndexError(", "            if index >= len(self):\n                raise IndexError("))
+
+# ---- later additions ---------------------------------------------------------------------------
+V("C07-l-abs-offset", "C07", "C07.6", (DS, "    g = [ev_f[idx](t_root - (t_next - t_prev) * D.epsilon(roots[0].dtype) ** 0.5) for idx, t_root in enumerate(roots)]", "    g = [ev_f[idx](t_root - abs(t_next - t_prev) * D.epsilon(roots[0].dtype) ** 0.5) for idx, t_root in enumerate(roots)]"))
+V("C07-m-direction-abs", "C07", "C07.6", (DS, "                direction[i] = event.direction", "                direction[i] = abs(event.direction)"))
+V("C07-n-terminal-wrong-index", "C07", "C07.6", (DS, "                is_terminal[i] = bool(event.is_terminal)", "                is_terminal[0] = bool(event.is_terminal)"))
+V("C07-o-offset-no-step", "C07", "C07.6", (DS, "    g_new = [ev_f[idx](t_root + (t_next - t_prev) * D.epsilon(roots[0].dtype) ** 0.5) for idx, t_root in enumerate(roots)]", "    g_new = [ev_f[idx](t_root + D.epsilon(roots[0].dtype) ** 0.5) for idx, t_root in enumerate(roots)]"))
+V("C17-s-vec-strict-equiv", "C17", "silent", (UTL, "        msk1 = val > mid_vals\n        msk2 = val <= mid_vals", "        msk1 = val >= mid_vals\n        msk2 = val < mid_vals"))
+V("C17-j-vec-final", "C17", "C17.5", (UTL, "jlower = D.ar_numpy.where(D.ar_numpy.take(array, jlower, axis=0) < val, jupper, jlower)", "jlower = D.ar_numpy.where(D.ar_numpy.take(array, jlower, axis=0) <= val, jupper, jlower)"))
+V("C17-s-vec-equiv", "C17", "silent", (UTL, "        msk1 = val > mid_vals\n        msk2 = val <= mid_vals", "        msk2 = val <= mid_vals\n        msk1 = D.ar_numpy.logical_not(msk2)"))
+V("C01-l-adaptivity-inverted", "C01", "C01.6", (ITY, "        return self._adaptive and self._adaptivity_enabled\n    \n    @is_adaptive.setter\n    def is_adaptive(self, adaptivity):\n        self._adaptivity_enabled = adaptivity\n\n    @property\n    def stages(self):\n        return self.tableau_intermediate.shape[0]", "        return self._adaptive and not self._adaptivity_enabled\n    \n    @is_adaptive.setter\n    def is_adaptive(self, adaptivity):\n        self._adaptivity_enabled = adaptivity\n\n    @property\n    def stages(self):\n        return self.tableau_intermediate.shape[0]"))
+V("C04-j-controller-back", "C04", "C04.2", (ITY, "            if not self.is_adaptive:\n                # no embedded error estimate: keep the step that was taken\n                timestep, redo_step = self.dTime, False\n", ""))
+V("C06-k-fsal-implicit", "C06", "C06.6", (ITY, "        if self.is_fsal and self.is_explicit:\n            self.dState = intermediate_dstate\n            self.final_rhs = intermediate_rhs\n        else:\n            self.dState = timestep * D.ar_numpy.sum(self.stage_values * self.tableau_final[0, 1:], axis=-1)\n            self.final_rhs = rhs(",
+   "        if self.is_fsal and self.is_explicit:\n            self.dState = intermediate_dstate\n        else:\n            self.dState = timestep * D.ar_numpy.sum(self.stage_values * self.tableau_final[0, 1:], axis=-1)\n        if self.is_fsal:\n            self.final_rhs = intermediate_rhs\n        else:\n            self.final_rhs = rhs("))
+V("C09-l-sort-elapsed", "C09", "C09.1", (DS, "order = D.ar_numpy.argsort(D.ar_numpy.sign(t_next - t_prev) * roots)", "order = D.ar_numpy.argsort(roots - t_prev)"))
